@@ -10,7 +10,8 @@ MODULES = ["Curtsies.Properties.C20"]
 RULE = ("the decoder's decision tree as in C03 (ascii, latin-1 complete; utf-8 two full levels + boundary alphabets; "
         "three full levels in thorough), every node x full x the three naming modes compared with each other; "
         "every entry of both tables fed whole under every encoding and mode; seeded streams cut under the three "
-        "modes; every valid configuration name (C-a..C-z, M-<0x20..0x7e>, F1..F12, SPECIALS, the empty name) and a "
+        "modes; under utf-16, utf-16-le, utf-32 and cp1252 (real code only) every 1-byte string, 256 x 20 2-byte strings, "
+        "structured texts and seeded random streams of <= 10 bytes compared across the three modes; every valid configuration name (C-a..C-z, M-<0x20..0x7e>, F1..F12, SPECIALS, the empty name) and a "
         "catalogue of 44 invalid or unusual ones (model/implementation correspondence only). non-trivial = distinct "
         "case with at least 2 bytes or a non-ASCII byte, or a configuration name")
 ASSUMPTIONS = ["JUDGED DOMAIN of 'every key a configuration file can name': C-<lower-case letter a..z>, M-<printable ASCII "
@@ -18,9 +19,16 @@ ASSUMPTIONS = ["JUDGED DOMAIN of 'every key a configuration file can name': C-<l
                "OUTSIDE it: upper-case C-<LETTER> (keymap['C-A'] gives '<Ctrl-A>', which the decoder never produces) and "
                "M-<non-ASCII character> (keymap['M-\u00e9'] gives '<Esc+\u00e9>', never produced): the property is silent on "
                "them and on malformed names; they are tied model<->implementation (catalogue), not judged",
+               "the model covers the property's three encodings (utf-8, ascii, latin-1); utf-16, utf-16-le, utf-32 and cp1252 "
+               "are judged ON THE REAL CODE ONLY (oracle without a model line): the three naming modes must decide alike on "
+               "every short byte string and cut short streams at the same places, bytes naming returning exactly the bytes",
                "configuration names are str of code points; str.isdigit is modelled on ASCII digits (names with other "
                "Unicode digits are outside the model's domain and not generated)"]
 TRUSTED = c03.TRUSTED
+
+# encodings outside the modelled domain, judged on the real code only (no driver line): the decoder treats them as
+# "could need more bytes" (the repo's own tests use 'utf16')
+EXTRA_ENCS = ["utf-16", "utf-16-le", "utf-32", "cp1252"]
 
 VALID = ([""] + sorted(SPECIALS) + ["C-" + chr(c) for c in range(ord("a"), ord("z") + 1)]
          + ["M-" + chr(c) for c in range(0x20, 0x7f)] + ["F%d" % i for i in range(1, 13)])
@@ -68,23 +76,36 @@ def oracle_node(a):
             bad.append("bytes naming returned %r for bytes %r" % (r, bytes(seq)))
     if len(set(shapes.values())) != 1:
         bad.append("naming modes decide differently on the same bytes: %r" % (shapes,))
-    return bad
+    return [(w, "D39" if is_d39(enc, bytes(seq), shapes) else None) for w in bad]
+
+
+def is_d39(enc, seq, shapes):
+    """footprint of known finding D39: an encoding other than the property's three; a multi-byte curtsies-only
+    table sequence; curses naming raises NotImplementedError while curtsies and bytes naming return a key"""
+    return (enc not in ENCS and len(seq) > 1 and seq in ev.CURTSIES_NAMES and seq not in ev.CURSES_NAMES
+            and shapes.get("curses") == ("raises", "NotImplementedError")
+            and shapes.get("curtsies") == "key" and shapes.get("bytes") == "key")
 
 
 def oracle_stream(a):
     enc, units, kind = a
     buf = b"".join(units)
-    cuts = {}
+    cuts, fails = {}, {}
     for mode in MODES:
         try:
             ps = kc.segment(buf, enc, mode)
             cuts[mode] = [len(c) for _, c in ps]
             if mode == "bytes" and [k for k, _ in ps] != [c for _, c in ps]:
-                return ["bytes naming does not return exactly the bytes of each keypress"]
+                return [("bytes naming does not return exactly the bytes of each keypress", None)]
         except kc.FindFailure as f:
             cuts[mode] = type(f.exc).__name__
+            fails[mode] = f
     if not (cuts["curtsies"] == cuts["curses"] == cuts["bytes"]):
-        return ["naming modes cut the stream at different places: %r" % (cuts,)]
+        f = fails.get("curses")
+        fp = None
+        if f is not None and f.at is not None and cuts["curtsies"] == cuts["bytes"] and isinstance(cuts["bytes"], list):
+            fp = "D39" if is_d39(enc, bytes(f.at), {"curses": ("raises", type(f.exc).__name__), "curtsies": "key", "bytes": "key"}) else None
+        return [("naming modes cut the stream at different places: %r" % (cuts,), fp)]
     return []
 
 
@@ -115,8 +136,8 @@ def check(ctx, search=False):
     items = [(enc, u, True) for enc in ENCS for u in TABLE_KEYS]
     for it, b in zip(items, map(oracle_node, items)):
         ctx.count(("getkey", it[0], "all", 1, hx(it[1])), tag="table-entry-whole")
-        for w in b:
-            ctx.violation(w, ("getkey", it[0], "curtsies", 1, hx(it[1])), None)
+        for w, fp in b:
+            ctx.violation(w, ("getkey", it[0], "curtsies", 1, hx(it[1])), fp)
     # ---- modes along the decision tree ------------------------------------------------------------------------
     for enc, nodes in c03.trees(ctx).items():
         cases = [("getkey", enc, mode, full, hx(n)) for n in nodes for full in (0, 1) for mode in MODES]
@@ -125,14 +146,39 @@ def check(ctx, search=False):
         items = [(enc, bytes(n), full) for n in nodes for full in (False, True)]
         for it, b in zip(items, kc.par_map(oracle_node, items, procs)):
             ctx.count(("getkey", it[0], "all", int(it[2]), hx(it[1])), nontrivial=c03.nontriv(hx(it[1])), tag="modes-" + enc)
-            for w in b:
-                ctx.violation(w, ("getkey", it[0], "curtsies", int(it[2]), hx(it[1])), None)
+            for w, fp in b:
+                ctx.violation(w, ("getkey", it[0], "curtsies", int(it[2]), hx(it[1])), fp)
     # ---- modes over whole streams -------------------------------------------------------------------------------
     streams = c03.random_streams(ctx, 4000 if ctx.thorough else 800)
     for it, b in zip(streams, kc.par_map(oracle_stream, streams, procs, chunksize=200)):
         ctx.count(("segment", it[0], "all", 0, hx(b"".join(it[1]))), tag="stream-" + it[2])
-        for w in b:
-            ctx.violation(w, ("segment", it[0], "curtsies", 0, hx(b"".join(it[1]))), None)
+        for w, fp in b:
+            ctx.violation(w, ("segment", it[0], "curtsies", 0, hx(b"".join(it[1]))), fp)
+    # ---- extra encodings: oracle only (outside the model) --------------------------------------------------------
+    r = ctx.rng
+    second = kc.ALPHA18 + [0x68, 0x69]
+    items = [(enc, bytes([a]), full) for enc in EXTRA_ENCS for a in range(256) for full in (False, True)]
+    items += [(enc, bytes([a, b]), full) for enc in EXTRA_ENCS for a in range(256) for b in second for full in (False, True)]
+    items += [(enc, u, full) for enc in EXTRA_ENCS for u in TABLE_KEYS if len(u) > 2 for full in (False, True)]
+    for it, b in zip(items, kc.par_map(oracle_node, items, procs)):
+        ctx.count(("getkey", it[0], "all", int(it[2]), hx(it[1])), tag="modes-extra-encoding")
+        for w, fp in b:
+            ctx.violation(w, ("getkey", it[0], "curtsies", int(it[2]), hx(it[1])), fp)
+    texts = ["h", "hi", "hi!", "a b", "\u00e9", "h\u20acllo", "\U0001f600", "a\x1b[A", "\x1bOP", "x\x7f", "~~", "A\u00ff"]
+    streams = []
+    for enc in EXTRA_ENCS:
+        for t in texts:
+            try:
+                streams.append((enc, [t.encode(enc)], "text"))
+            except UnicodeEncodeError:
+                pass
+        for _ in range(1500 if ctx.thorough else 300):
+            n = r.randint(1, 10)
+            streams.append((enc, [bytes(r.choice((r.randrange(0x21, 0x7f), 0, r.randrange(256), r.choice(kc.ALPHA18))) for _ in range(n))], "arbitrary"))
+    for it, b in zip(streams, kc.par_map(oracle_stream, streams, procs, chunksize=100)):
+        ctx.count(("segment", it[0], "all", 0, hx(b"".join(it[1]))), tag="stream-extra-encoding")
+        for w, fp in b:
+            ctx.violation(w, ("segment", it[0], "curtsies", 0, hx(b"".join(it[1]))), fp)
     # ---- configuration names --------------------------------------------------------------------------------------
     names = [("keymap", n) for n in VALID + CATALOGUE]
     if not search:
